@@ -839,6 +839,14 @@ class InterpBuiltins:
     def bi_typed(self, args, kw, line):
         return args[0]
 
+    def bi_at(self, args, kw, line):
+        """at(old, v) / at(loop_old, v): the value v (object, collection, record) viewed in that earlier heap - for
+        values that are not parameters, e.g. the bound variable of a quantifier over objects"""
+        ns, v = args
+        if not isinstance(ns, OldNS):
+            raise Unsupported(f'at(): first argument must be old or loop_old (line {line})')
+        return self.pin(v, ns.heap)
+
     def bi_assume(self, args, kw, line):
         """assume(e): only inside a @lemma body - restricts the universally quantified parameters of the lemma"""
         if not getattr(self, 'in_lemma', False):
